@@ -217,3 +217,121 @@ func M_regexp_Regexp_MatchString(re *string, s string) bool {
 	Unmodelled("regexp MatchString: pattern not modelled")
 	return false
 }
+
+func isASCIISpace(b byte) bool {
+	return b == ' ' || b == '\t' || b == '\n' || b == '\v' || b == '\f' || b == '\r'
+}
+
+// strings.TrimSpace: exact on strings whose boundary bytes are ASCII; a non-ASCII byte
+// at a trimming boundary (Unicode spaces are multi-byte) is not modelled.
+func M_strings_TrimSpace(s string) string {
+	i, j := 0, len(s)
+	for i < j && s[i] < 0x80 && isASCIISpace(s[i]) {
+		i++
+	}
+	if i < j && s[i] >= 0x80 {
+		Unmodelled("TrimSpace: non-ASCII byte at the trimming boundary")
+	}
+	for j > i && s[j-1] < 0x80 && isASCIISpace(s[j-1]) {
+		j--
+	}
+	if j > i && s[j-1] >= 0x80 {
+		Unmodelled("TrimSpace: non-ASCII byte at the trimming boundary")
+	}
+	return s[i:j]
+}
+
+// strings.Fields on ASCII strings
+func M_strings_Fields(s string) []string {
+	var out []string
+	i := 0
+	for i < len(s) {
+		if s[i] >= 0x80 {
+			Unmodelled("Fields: non-ASCII byte")
+		}
+		if isASCIISpace(s[i]) {
+			i++
+			continue
+		}
+		j := i
+		for j < len(s) && !isASCIISpace(s[j]) {
+			if s[j] >= 0x80 {
+				Unmodelled("Fields: non-ASCII byte")
+			}
+			j++
+		}
+		out = append(out, s[i:j])
+		i = j
+	}
+	return out
+}
+
+func M_strings_Split(s, sep string) []string { return M_strings_SplitN(s, sep, -1) }
+
+func M_strings_LastIndex(s, sep string) int {
+	n := len(sep)
+	if n == 0 {
+		return len(s)
+	}
+	for i := len(s) - n; i >= 0; i-- {
+		if s[i:i+n] == sep {
+			return i
+		}
+	}
+	return -1
+}
+
+func M_strings_TrimSuffix(s, p string) string {
+	if M_strings_HasSuffix(s, p) {
+		return s[:len(s)-len(p)]
+	}
+	return s
+}
+
+// strings.EqualFold on ASCII strings
+func M_strings_EqualFold(a, b string) bool {
+	if len(a) != len(b) {
+		for i := 0; i < len(a); i++ {
+			if a[i] >= 0x80 {
+				Unmodelled("EqualFold: non-ASCII byte")
+			}
+		}
+		for i := 0; i < len(b); i++ {
+			if b[i] >= 0x80 {
+				Unmodelled("EqualFold: non-ASCII byte")
+			}
+		}
+		return false
+	}
+	for i := 0; i < len(a); i++ {
+		x, y := a[i], b[i]
+		if x >= 0x80 || y >= 0x80 {
+			Unmodelled("EqualFold: non-ASCII byte")
+		}
+		if x >= 'A' && x <= 'Z' {
+			x += 32
+		}
+		if y >= 'A' && y <= 'Z' {
+			y += 32
+		}
+		if x != y {
+			return false
+		}
+	}
+	return true
+}
+
+func M_strings_ReplaceAll(s, old, new string) string {
+	if old == "" {
+		Unmodelled("ReplaceAll: empty old string")
+	}
+	out := ""
+	for {
+		i := M_strings_Index(s, old)
+		if i < 0 {
+			return out + s
+		}
+		out += s[:i] + new
+		s = s[i+len(old):]
+	}
+}
